@@ -366,13 +366,15 @@ func (s *verifC04Server) waitTrashIdle() error {
 // ---------------------------------------------------------------------------- history mode
 
 var verifC04Servers = map[string]*verifC04Server{}
+var verifC04ServerSeq int
 
 func verifC04GetServer(base string, vols []string) (*verifC04Server, error) {
 	key := strings.Join(vols, ",")
 	if s, ok := verifC04Servers[key]; ok {
 		return s, s.wipe()
 	}
-	s, err := verifC04NewServer(filepath.Join(base, strings.Replace(key, ",", "_", -1)), vols)
+	verifC04ServerSeq++
+	s, err := verifC04NewServer(filepath.Join(base, fmt.Sprintf("%s.%d", strings.Replace(key, ",", "_", -1), verifC04ServerSeq)), vols)
 	if err != nil {
 		return nil, err
 	}
@@ -690,15 +692,40 @@ func (c *verifC04Ctl) step(x byte) error {
 	y := byte('P' + 'T' - x)
 	o := c.th[y]
 	if o.state == 1 && !c.isBlocked(y) {
+		// A waiter line of /proc/locks is reliable when present, but one read of that file can
+		// miss a line while other processes' locks come and go. So "not listed" only means: look
+		// again. settle returns with state 1 if y turns out to be still waiting (no event then).
 		if err := c.settle(y); err != nil {
 			return err
 		}
-		if o.state == 1 {
-			return fmt.Errorf("thread %c blocked twice in one step", y)
+		if o.state != 1 {
+			c.trace = append(c.trace, string(y)+"~")
 		}
-		c.trace = append(c.trace, string(y)+"~")
 	}
 	return nil
+}
+
+// abort lets both goroutines run to completion unsupervised after a controller error and discards
+// the server they may still be using.
+func (c *verifC04Ctl) abort(key string) {
+	verifPointHook.Store(func(string) {})
+	for _, x := range []byte{'P', 'T'} {
+		t := c.th[x]
+		go func() {
+			for range t.arrive {
+			}
+		}()
+		close(t.release)
+	}
+	for _, x := range []byte{'P', 'T'} {
+		if t := c.th[x]; t.state != 2 {
+			select {
+			case <-t.done:
+			case <-time.After(10 * time.Second):
+			}
+		}
+	}
+	delete(verifC04Servers, key)
 }
 
 func verifC04Race(base string, f []string) (string, error) {
@@ -776,6 +803,7 @@ func verifC04Race(base string, f []string) (string, error) {
 		return strconv.Itoa(s.do("PUT", "/"+h, verifC04Body(0), true).Code)
 	})
 	if err := ctl.settle('P'); err != nil {
+		ctl.abort(vol)
 		return "", err
 	}
 	run('T', func() string {
@@ -800,15 +828,18 @@ func verifC04Race(base string, f []string) (string, error) {
 		return "-"
 	})
 	if err := ctl.settle('T'); err != nil {
+		ctl.abort(vol)
 		return "", err
 	}
 	sched := f[7] + strings.Repeat("PT", 30)
 	for i := 0; i < len(sched); i++ {
 		if err := ctl.step(sched[i]); err != nil {
+			ctl.abort(vol)
 			return "", err
 		}
 	}
 	if ctl.th['P'].state != 2 || ctl.th['T'].state != 2 {
+		defer ctl.abort(vol)
 		return "", fmt.Errorf("threads did not finish: P=%d@%s T=%d@%s", ctl.th['P'].state, ctl.th['P'].at, ctl.th['T'].state, ctl.th['T'].at)
 	}
 	verifPointHook.Store(func(string) {})
